@@ -2527,6 +2527,10 @@ class ProvDocument(ProvBundle):
                     "WARNING: not saving as location " + "is not a local file reference"
                 )
                 return
+            if scheme != "file":
+                # a plain file name: use it as it is ('#', '?', ';' and ':' are
+                # legal in file names and must not be cut off as URL syntax)
+                path = location
             fd, name = tempfile.mkstemp()
             stream = os.fdopen(fd, "wb")
             serializer.serialize(stream, **args)
